@@ -9,7 +9,10 @@ op  = R<n> W<n> C CW H                        API calls on the connection under 
       pd<n> ph<n> pa<level>.<desc> pc         the peer writes a data / handshake-type / alert record, close_notify
       te  tx<n>.<k>  tt  tp                   transport: EOF, EOF after k bytes of an n-byte data record,
                                               temporary error, permanent error
-      wft wfp wfn                             writes of the unit's transport fail (timeout / permanently / no more)
+      wft wfp wfh wfn                         writes of the unit's transport fail (timeout taking nothing / permanently /
+                                              timeout after taking half of the bytes / no more)
+      pg<t>                                   a record of type t that does not authenticate is injected towards the unit
+      PR<n>                                   the peer's application reads (observed as `peer=<r>,…`, judged by the spec only)
 r   = ok | ok.<hex> | okerr.<hex>.<err> | <err>
 -/
 import Gotlcp.Oracle.Common
@@ -43,6 +46,9 @@ def parseOp (suite : String) (idx : Nat) (op : String) : Option (List Call) :=
     | [l, d] => do pure [.arrive (.record ⟨21, vers, [UInt8.ofNat (← num l), UInt8.ofNat (← num d)]⟩)]
     | _ => none
   | ['p', 'c'] => some [.arrive (.record ⟨21, vers, [1, 0]⟩)]
+  | 'p' :: 'g' :: r => (num (String.ofList r)).map fun t => [.arrive (.record ⟨forgedMark + t, vers, pattern idx 20⟩)]
+  | 'P' :: 'R' :: _ => some []
+  | ['w', 'f', 'h'] => some [.setWFail .temp]
   | ['t', 'e'] => some [.arrive (.eof none)]
   | 't' :: 'x' :: r =>
     match (String.ofList r).splitOn "." with
@@ -92,6 +98,7 @@ open Spec.ConnAPI in
 def specSteps (suite : String) : List (Nat × String) → List String → List Step
   | [], _ => []
   | (idx, op) :: ops, obs =>
+    if op.startsWith "PR" then specSteps suite ops obs else
     let isCall := op == "C" || op == "CW" || op == "H" || op.startsWith "R" || op.startsWith "W"
     if isCall then
       match obs with
@@ -113,6 +120,7 @@ def specSteps (suite : String) : List (Nat × String) → List String → List S
         match op.toList with
         | 'p' :: 'd' :: r => .peerData (pattern idx ((String.ofList r).toNat?.getD 0))
         | ['p', 'c'] => .peerCloseNotify
+        | 'p' :: 'g' :: _ => .forgery
         | 'p' :: 'a' :: r => if ((String.ofList r).splitOn ".").getD 1 "" == "0" then .peerCloseNotify else .other
         | ['t', 'e'] => .transportEnd false
         | 't' :: 'x' :: r =>
@@ -135,6 +143,20 @@ def specSteps (suite : String) : List (Nat × String) → List String → List S
         | _ => []
       (if extra.isEmpty then [st] else extra) ++ specSteps suite ops obs
 
+/-- does a `Close` / `CloseWrite` follow a failed `Write`?  (`closeNotify` seals its alert with the
+next sequence number although the failed record never reached the peer — as crypto/tls does; the
+peer then reports bad_record_mac instead of a truncated stream.  Reported as a note, see F39.) -/
+def closeAfterFailedWrite : List String → List String → Bool → Bool
+  | [], _, _ => false
+  | op :: ops, obs, failed =>
+    let isCall := op == "C" || op == "CW" || op == "H" || (op.startsWith "R" ) || (op.startsWith "W")
+    if op.startsWith "PR" || !isCall then closeAfterFailedWrite ops obs failed else
+    match obs with
+    | [] => false
+    | o :: obs' =>
+      if (op == "C" || op == "CW") && failed then true
+      else closeAfterFailedWrite ops obs' (failed || (op.startsWith "W" && o != "ok"))
+
 def parseOps (s : String) : List String := if s == "-" || s == "" then [] else s.splitOn ","
 
 def judgeAPI (ct ot : List String) : Option Verdict := do
@@ -143,11 +165,25 @@ def judgeAPI (ct ot : List String) : Option Verdict := do
   let calls ← (ops.zipIdx.mapM fun (op, i) => parseOp suite i op)
   let c0 : Conn := { hsDone := true }
   let outs := runModel c0 calls.flatten
-  let model := if outs.isEmpty then "res=-" else s!"res={",".intercalate outs}"
+  -- what the peer's application read (`PR` ops) is not modelled: echoed, judged by the spec only
+  let peerTok := match kv ot "peer" with | some p => s!" peer={p}" | none => ""
+  let model := (if outs.isEmpty then "res=-" else s!"res={",".intercalate outs}") ++ peerTok
   let obs := parseOps ((kv ot "res").getD "-")
   let steps := specSteps suite (ops.zipIdx.map fun (op, i) => (i, op)) obs
-  let spec := if (kv ot "panic").isSome then some ("panic", "a call panicked") else Spec.ConnAPI.check {} steps
-  pure { model := model, spec := spec, trivial := outs.isEmpty }
+  -- the peer must never be handed a record out of sequence: unless this side's transport took
+  -- part of a record (`wfh`) or garbage was injected towards the peer, the peer's reads never
+  -- fail with a local alert
+  let peerObs := parseOps ((kv ot "peer").getD "-")
+  let partial_ := ops.any (· == "wfh")
+  let cnAfter := closeAfterFailedWrite ops obs false
+  let desyncSeen := peerObs.any (·.startsWith "local.")
+  let desync := !partial_ && !cnAfter && desyncSeen
+  let spec := if (kv ot "panic").isSome then some ("panic", "a call panicked")
+    else match Spec.ConnAPI.check {} steps with
+      | some f => some f
+      | none => if desync then some ("peer-desync", "the peer was handed a record it could not authenticate after a failed Write") else none
+  let note := if desyncSeen && cnAfter then "close-notify-after-failed-write-desyncs-peer" else ""
+  pure { model := model, spec := spec, note := note, trivial := outs.isEmpty }
 
 def judgeCancel (ct ot : List String) : Option Verdict := do
   let ops := parseOps ((kv ct "ops").getD "-")
